@@ -108,6 +108,8 @@ class ScenarioInterp(Interp):
 
     def symbool(self, name):
         v = z3.Bool(name)
+        if self.ctx.wit is not None and name not in self.ctx.wit:
+            self.ctx.wit_define(v, False)
         self.inputs[name] = v
         return v
 
@@ -170,6 +172,10 @@ class ScenarioInterp(Interp):
             eqs = [self.inputs[k] == v for k, v in hint.items() if k in self.inputs]
             r = self.ctx.check(z3.And(*eqs)) if eqs else r
         self.result.covers[label] = (r == 'sat')
+
+    def finding_active(self, fid):
+        """is the open known finding `fid` still reproducing natively on the current tree?"""
+        return fid in (self.opts.get('active_findings') or ())
 
     def lemma(self, cond, because):
         """assume a fact established by another obligation of the same run (assume-guarantee)"""
